@@ -63,3 +63,11 @@ Example C11_nonvacuous :
   safe_join (s [47;114]) (s [97;46;46;98;47;47;46;47;99]) = Some (s [47;114;47;97;46;46;98;47;47;46;47;99]) /\ (* "a..b//./c" *)
   resolve (s [47;114;47;97;46;46;98;47;47;46;47;99]) = [[114]; [97;46;46;98]; [99]].
 Proof. vm_compute. repeat split. Qed.
+
+(** The model the theorems above are about is the translation of src/bin/copia/serve.rs safe_join as it is now: the function
+    generated from the source by tools/gen_logic.py (Gen/SafeJoinGen.v) equals, on every input, Model/SafeJoin.v safe_join
+    (statement: Proofs/TieSafeJoin.v, [safe_join_model_is_translation]). *)
+Require Copia.Proofs.TieSafeJoin.
+Theorem C11_model_is_translation_of_source : TieSafeJoin.safe_join_model_is_translation.
+Proof. exact TieSafeJoin.safe_join_model_is_translation_holds. Qed.
+Print Assumptions C11_model_is_translation_of_source.
